@@ -93,7 +93,7 @@ impl Server {
     }
 
     fn spawn(dir: &Path, port: u16, opts: &ServerOpts) -> Result<Child, String> {
-        let exe = std::env::current_exe().map_err(|e| e.to_string())?;
+        let exe = crate::own_exe();
         let mut cmd = Command::new(exe);
         cmd.arg("serve").arg("--port").arg(port.to_string()).arg("--dir").arg(dir);
         if opts.appendonly {
